@@ -109,14 +109,17 @@ theorem machine_stateless (f : Nat) (ts : List Tok) (history : List (List Tok)) 
 
 /-- The three WHERE-clause hooks are closures with a `lastNopToken` each. Whatever they remember from
     statements parsed earlier with the same parser — accepted or rejected, broken off after a modifier
-    keyword or not — the pattern clauses extracted from a new statement are the same (the model resets a
+    keyword or not — what is extracted from a new statement — pattern clauses, projections, input graphs, GROUP BY, ORDER BY,
+    LIMIT, global time bounds — is the same (the model resets a
     closure when it sees another statement: 7ebb438). -/
-theorem hooks_keep_no_state (stmt : Nat) (hs hp ho hs' hp' ho' : BW.Model.Hooks.HState)
-    (h1 : hs.cur ≠ stmt) (h2 : hp.cur ≠ stmt) (h3 : ho.cur ≠ stmt)
-    (h1' : hs'.cur ≠ stmt) (h2' : hp'.cur ≠ stmt) (h3' : ho'.cur ≠ stmt) (evs : List BW.Model.Hooks.HEv) :
-    (BW.Model.Hooks.wrun { stmt := stmt, hs := hs, hp := hp, ho := ho } evs).map (·.pattern) =
-    (BW.Model.Hooks.wrun { stmt := stmt, hs := hs', hp := hp', ho := ho' } evs).map (·.pattern) :=
-  BW.Proofs.Hooks.hooks_stateless stmt hs hp ho hs' hp' ho' h1 h2 h3 h1' h2' h3' evs
+theorem hooks_keep_no_state (stmt : Nat) (hs hp ho hv hs' hp' ho' hv' : BW.Model.Hooks.HState)
+    (hb hb' : BW.Model.Hooks.BState)
+    (h1 : hs.cur ≠ stmt) (h2 : hp.cur ≠ stmt) (h3 : ho.cur ≠ stmt) (h4 : hv.cur ≠ stmt) (h5 : hb.cur ≠ stmt)
+    (h1' : hs'.cur ≠ stmt) (h2' : hp'.cur ≠ stmt) (h3' : ho'.cur ≠ stmt) (h4' : hv'.cur ≠ stmt) (h5' : hb'.cur ≠ stmt)
+    (evs : List BW.Model.Hooks.HEv) :
+    (BW.Model.Hooks.wrun { stmt := stmt, hs := hs, hp := hp, ho := ho, hv := hv, hb := hb } evs).map (fun w => (w.pattern, w.head)) =
+    (BW.Model.Hooks.wrun { stmt := stmt, hs := hs', hp := hp', ho := ho', hv := hv', hb := hb' } evs).map (fun w => (w.pattern, w.head)) :=
+  BW.Proofs.Hooks.hooks_stateless stmt hs hp ho hv hs' hp' ho' hv' hb hb' h1 h2 h3 h4 h5 h1' h2' h3' h4' h5' evs
 
 /-! ### Which hook sees which tokens (regenerated by probing the hooks of `grammar.SemanticBQL()`) -/
 
@@ -128,19 +131,27 @@ def reachN : Nat → List Sym → List Sym
   | n + 1, l => reachN n (l ++ (l.flatMap succs).filter (fun x => !l.contains x))
 
 /-- The tokens of a clause's subject part go to the subject hook, those of its predicate part to the
-    predicate hook, those of its object part to the object hook, and to no other; clauses are opened and
-    closed by the next-clause hook, the pattern by the init hook; the tokens of the ORDER BY list go to the order
-    hook and the list is closed by its checker; every alternative of a symbol carries the same hooks. -/
+    predicate hook, those of its object part to the object hook; those of the SELECT list to the projection
+    hook, of the FROM list to the input-graph hook, of GROUP BY, ORDER BY, LIMIT and the global time bound to
+    theirs; and to no other. Clauses are opened and closed by the next-clause hook, the pattern by the init
+    hook; the end of WHERE flushes the working projection; the ORDER BY list is closed by its checker; every
+    alternative of a symbol carries the same hooks. -/
 theorem routing_wf :
     hooksUniform = true ∧
     (reachN 6 [.SUBJECT_EXTRACT]).all (fun s => partOf s == .subj) = true ∧
     (reachN 6 [.PREDICATE]).all (fun s => partOf s == .pred) = true ∧
     (reachN 6 [.OBJECT]).all (fun s => partOf s == .obj) = true ∧
     (reachN 6 [.ORDER_BY]).all (fun s => partOf s == .order) = true ∧
+    (reachN 6 [.VARS]).all (fun s => partOf s == .vars) = true ∧
+    (reachN 6 [.INPUT_GRAPHS]).all (fun s => partOf s == .inGraphs) = true ∧
+    (reachN 6 [.GROUP_BY]).all (fun s => partOf s == .group) = true ∧
+    (reachN 6 [.LIMIT]).all (fun s => partOf s == .limit) = true ∧
+    (reachN 6 [.GLOBAL_TIME_BOUND]).all (fun s => partOf s == .bounds) = true ∧
     [Sym.FIRST_CLAUSE, .CLAUSES, .OPTIONAL_CLAUSE].all (fun s => partOf s == .subj) = true ∧
-    allSyms.all (fun s => partOf s == .none || (reachN 6 [.SUBJECT_EXTRACT, .PREDICATE, .OBJECT, .FIRST_CLAUSE, .CLAUSES, .OPTIONAL_CLAUSE, .ORDER_BY]).contains s) = true ∧
+    allSyms.all (fun s => partOf s == .none || (reachN 6 [.SUBJECT_EXTRACT, .PREDICATE, .OBJECT, .FIRST_CLAUSE, .CLAUSES,
+      .OPTIONAL_CLAUSE, .ORDER_BY, .VARS, .INPUT_GRAPHS, .GROUP_BY, .LIMIT, .GLOBAL_TIME_BOUND]).contains s) = true ∧
     [Sym.FIRST_CLAUSE, .CLAUSES, .MORE_CLAUSES].all (fun s => startHook s == .next && endHook s == .next) = true ∧
-    startHook .WHERE = .init ∧ endHook .ORDER_BY = .orderCheck ∧
+    startHook .WHERE = .init ∧ endHook .WHERE = .flushVars ∧ endHook .ORDER_BY = .orderCheck ∧
     allSyms.all (fun s => (startHook s == .none && endHook s == .none) || [Sym.FIRST_CLAUSE, .CLAUSES, .MORE_CLAUSES, .WHERE, .ORDER_BY].contains s) = true := by
   decide +kernel
 
